@@ -375,6 +375,17 @@ func (t QualifiedRule) serializeTo(writer io.StringWriter) {
 }
 
 func (t AtRule) serializeTo(writer io.StringWriter) {
+	if len(t.Prelude) != 0 {
+		// the at-keyword and the first token of the prelude must not fuse when parsed again
+		// ("@media/**/screen" with comments skipped would become "@mediascreen")
+		firstType := t.Prelude[0].Kind().String()
+		if literal, ok := t.Prelude[0].(Literal); ok {
+			firstType = literal.Value
+		}
+		if badPairs[[2]string{KAtKeyword.String(), firstType}] {
+			t.Prelude = append([]Token{Comment{}}, t.Prelude...) // written as /**/
+		}
+	}
 	writer.WriteString("@")
 	writer.WriteString(serializeIdentifier(t.AtKeyword))
 	serializeTo(t.Prelude, writer)
